@@ -646,6 +646,7 @@ def run(ctx):
     fx = []
     amp_over = {}
     slow = []
+    near = []
     for (fmt, case), (st, r, _note) in zip(args, res):
         _SWEEP[_key(fmt, case)] = _as_fails(case, st, r)
         if st == "done":
@@ -673,6 +674,12 @@ def run(ctx):
             fx.append(r["info"])
         if part == "amp" and r["fails"]:
             amp_over.setdefault(case["t"], []).append(case["n"])
+        if part == "amp" and not r["fails"] and r.get("info"):
+            i = r["info"]
+            eb, mb = M.budgets(i["size"])
+            fr = max(i["events"] / eb, (i["peak"] or 0) / mb)
+            if fr >= 0.5:
+                near.append({"case": case, "events_fraction": round(i["events"] / eb, 3), "memory_fraction": round((i["peak"] or 0) / mb, 3)})
     # the double replay of every failing case, in parallel (triage asks for it case by case)
     failing = sorted({_key(f[1], f[2]) for f in fails})
     rargs = [tuple(json.loads(k)) for k in failing for _i in (0, 1)]
@@ -708,6 +715,7 @@ def run(ctx):
                               "max_events": fx_abs_ev and {"p": fx_abs_ev["p"], "value": fx_abs_ev["events"], "size": fx_abs_ev["size"]},
                               "max_peak": fx_abs_pk and {"p": fx_abs_pk["p"], "value": fx_abs_pk["peak"], "size": fx_abs_pk["size"]}},
            "slowest_cases_cpu_s": [{"cpu": c, "case": json.loads(k)} for c, k in slow[:12]],
+           "within_budget_but_above_half": sorted(near, key=lambda x: json.dumps(x["case"], sort_keys=True)),
            "over_budget_magnitudes": {k: sorted(v) for k, v in sorted(amp_over.items())},
            "bounds": {"tier": ctx.tier, "lattices": {k: v[0 if ctx.quick else 1] for k, v in T.MAGS.items()}}}
     assumptions = [
